@@ -30,11 +30,13 @@ def digest_field(rng, hashname):
     if hashname == "sha256_8": return A.Bytes(8)
     if hashname == "crc32": return rng.choice([A.Alias("Int32ub"), A.Alias("Int32ul")])
     if hashname == "sum8": return A.Alias("Byte")
+    if hashname == "sha256_i64": return rng.choice([A.Alias("Int64ub"), A.Alias("Int64ul"), A.BytesInteger(8, swapped=True)])
+    if hashname == "sha256_i48": return rng.choice([A.BytesInteger(6), A.BytesInteger(6, swapped=True)])
     return A.Alias("Int16ub")
 
 def checksum_program(rng, covered):
     "(program, offset of the covered region in the encoding, function wrapping the core value)"
-    h = rng.choice(["sha1", "md5", "sha256_8", "crc32", "sum8", "adler16"])
+    h = rng.choice(["sha1", "md5", "sha256_8", "crc32", "sum8", "adler16", "sha256_i64", "sha256_i48"])
     core = A.Struct(A.Renamed("raw", A.RawCopy(covered)), A.Renamed("chk", A.Checksum(digest_field(rng, h), h, A.T("raw", "data"))))
     r = rng.randrange(4)
     if r == 0: return core, 0, (lambda c: c)
